@@ -256,7 +256,8 @@ def case_size(c):
 
 def _shape(rng):
     nd = rng.choice([0, 1, 1, 2, 2, 3])
-    return [rng.choice([1, 2, 3]) for _ in range(nd)]
+    # empty arrays keep their shape too: (0,), (0, 3), (2, 0, 4)
+    return [rng.choice([1, 2, 3]) if rng.random() < 0.93 else 0 for _ in range(nd)]
 
 
 def _int_pair(rng):
